@@ -86,6 +86,7 @@ func registerAll() {
 	reg("L19", "CBOR head width table: GetUintCBORSize agrees with the encoder's head widths (1/2/3/5/9 bytes at 23, 2^8-1, 2^16-1, 2^32-1) on every interval of uint64 cut by the constants it compares with", ruleL19)
 	reg("L20", "type-info references are resolved for every kind of inlined extra data: wherever the reference-resolving decoder is built, every callee handed a TypeInfoDecoder receives it (not the plain decoder)", ruleL20)
 	reg("G6", "arrival-independent outcome: no return inside a launcher's receive loop depends on the content of an individual worker result (which error is returned and what was applied before it must not depend on which worker finished first)", ruleG6)
+	reg("N5", "an outdated parent-updater never reads the former parent's slabs: the closure reaches slab storage only on the edge where an in-memory registry of the parent (keyed by the child's value id) still lists the child", ruleN5)
 	reg("I2", "iterator cursor advance: every exit of a Next/next method that hands out an element is preceded on all paths by a write of the iterator's cursor state (own field, nested iterator, or delegation to its own Next)", ruleI2)
 	reg("I3", "range validation: the range iterator constructors reject start > end and bounds beyond the count", ruleI3)
 
@@ -148,14 +149,14 @@ func registerAll() {
 	}
 	propTable["C10"] = &PropSpec{
 		ID:          "C10",
-		Rules:       []string{"R4", "R5", "R1", "R7", "L8", "N1", "N2", "N4", "L9", "L6", "L12", "L16", "X7", "L18", "L15"},
+		Rules:       []string{"R4", "R5", "R1", "R7", "L8", "N1", "N2", "N4", "L9", "L6", "L12", "L16", "X7", "L18", "L15", "N5"},
 		Explanation: "every exported mutator of Array/OrderedMap (computed from may-effects on slab state over a closure-granular call graph) calls notifyParentIfNeeded on every success path (extra-data-only mutators may store the standalone root on the not-inlined edge instead); every child handed out by lookup/mutable iteration or stored by Set/Insert passes setCallbackWithChild on every success path with the container's own inline limit (array: maxInlineArrayElementSize; map: maxInlineMapValueSize of that element's key storable size); read-only iterators arm the mutation callback; whatever replaces a container's root carries the id read from the previous root before any id change, and ValueID does not depend on the inlined state. Parent-updater callbacks re-validate the child's identity (address and index) before writing, so a mutation reaches the slot that holds this child and no other. Cached sizes start from the encoded prefix of the object's kind and state wherever they are established or re-based (a wrong prefix wraps around on the next re-basing and makes an in-range request fail in splitRoot). Decoded children own their digest slices (a reloaded sibling is not disturbed by a mutation through another child's handle). An element overwritten with the very container it already holds is recognised before the overwritten storable is uninlined (otherwise the slab just stored as the new element is un-inlined under the parent). For every slab size a slab can hold no more inlined containers than the one-byte inlined-extra-data index addresses (else a later commit cannot encode it; known finding).",
 		NotDecided:  "that the callback finds the right element after arbitrary parent restructuring (mutableElementIndex arithmetic), 'inlined exactly when it fits' (value-dependent), validity of ancestors.",
 		Technique:   "must-pass-through path rule over go/ssa CFG with interprocedural must-notify summaries; may-effect summaries to compute the mutator set; value-flow checks on callback arguments and root ids",
 	}
 	propTable["C11"] = &PropSpec{
 		ID:          "C11",
-		Rules:       []string{"R7", "N1", "N2", "N4", "N3", "R3", "X7"},
+		Rules:       []string{"R7", "N1", "N2", "N4", "N3", "R3", "X7", "N5"},
 		Explanation: "every Storable returned by an exported Array/OrderedMap method is the result of uninlineStorableIfNeeded (so a detached inlined child becomes a stored standalone slab) and that helper uninlines both slab kinds; the mutableElementIndex entry of a removed/overwritten child is deleted, guarded only by identity tests; parent-updater callbacks re-set the child only on paths that passed the true edge of a ValueID.equal test and after a fresh lookup; parentUpdater is assigned only by setParentUpdater and cleared only on the not-found edge of its own invocation. The identity predicate ValueID.equal(SlabID) is the conjunction of address equality and index equality on the right halves of the value id; a bulk pop resets the child index. An element overwritten with the very container it already holds is recognised before the overwritten storable is uninlined (otherwise the slab just stored as the new element is un-inlined under the parent).",
 		NotDecided:  "that re-validation compares the right element after arbitrary histories; equality of identity after reattachment.",
 		Technique:   "value-flow on return operands, control-dependence slices, edge-restricted reachability in callback closures",
@@ -183,7 +184,7 @@ func registerAll() {
 	}
 	propTable["C09"] = &PropSpec{
 		ID:          "C09",
-		Rules:       []string{"R1", "R2", "R3", "R7", "N2", "N4", "X2", "X1"},
+		Rules:       []string{"R1", "R2", "R3", "R7", "N2", "N4", "X2", "X1", "N5"},
 		Explanation: "every new or modified slab is stored, every allocated id becomes a slab identity, every detach event (merge, bulk pop of children, inline, root promotion, external collision group collapse/pop) removes the register and uninline stores it, on every success path; every Storable handed back by an exported Array/OrderedMap method went through uninlineStorableIfNeeded (a detached inlined child becomes a stored standalone slab the caller can dispose of); every field of a slab/element type that can hold a slab reference is read by the ChildStorables call graph (so references are enumerable and removable), with sibling links and own ids exempt by table; every slab/element kind is handled by every family type switch. A detached child's parent-updater writes into its former parent only after its identity (value id: address and index) was confirmed for the slot: otherwise a stale handle evicts a live value that is never handed back (leaked slabs). An element overwritten with the very container it already holds is recognised before the overwritten storable is uninlined (otherwise the slab just stored as the new element is un-inlined under the parent).",
 		NotDecided:  "'referenced exactly once' and owner equality (facts about runtime id values).",
 		Technique:   "value-flow on return operands, field-read coverage over the ChildStorables call graph, type-switch exhaustiveness over closed families",
